@@ -16,6 +16,7 @@ import (
 	"sort"
 	"strings"
 	"testing"
+	"time"
 
 	kitctx "github.com/dapr/kit/context"
 
@@ -549,4 +550,240 @@ func scenarios() []hx.Scenario {
 	return out
 }
 
-func TestMC(t *testing.T) { hx.Run(t, scenarios()) }
+// ---- members that are deadline contexts on the model clock (timeline mode) ----
+
+type dlScen struct {
+	init []int // per initial context: deadline in ms of model time, 0 = plain live context that never ends
+	adds []int // contexts added at model time 0 by the adder thread: deadline in ms, 0 = never ends
+}
+
+func (d dlScen) name() string { return fmt.Sprintf("deadline-members init=%v add=%v", d.init, d.adds) }
+
+func mkDeadlineExec(d dlScen) *mc.Exec {
+	var (
+		pool     *kitctx.Pool
+		doneAt   = time.Duration(-1)
+		addedAt  []time.Duration
+		addsDone bool
+	)
+	mk := func(ms int) context.Context {
+		if ms == 0 {
+			ctx, _ := mc.CtxWithCancel(context.Background())
+			return ctx
+		}
+		ctx, _ := mc.CtxWithTimeout(context.Background(), time.Duration(ms)*time.Millisecond)
+		return ctx
+	}
+	body := func() {
+		var initial []context.Context
+		for _, ms := range d.init {
+			initial = append(initial, mk(ms))
+		}
+		pool = kitctx.NewPool(initial...)
+		mc.GoNamed("observer", func() {
+			mc.Twin(pool.Done()).Recv()
+			doneAt = mc.ModelNow()
+		})
+		mc.GoNamed("adder", func() {
+			for _, ms := range d.adds {
+				pool.Add(mk(ms))
+				addedAt = append(addedAt, mc.ModelNow())
+			}
+			addsDone = true
+		})
+	}
+	check := func(e *mc.End) error {
+		if !addsDone {
+			return fmt.Errorf("[key=deadlock] a pool operation never returned\nadder blocked; parked=%v", e.Parked())
+		}
+		// timeline mode: every Add returned at model time 0, while the initial
+		// members (all live until >= 5ms) were live: the added ones are members
+		first := 1 << 30
+		for _, ms := range d.init {
+			if ms != 0 && ms < first {
+				first = ms
+			}
+		}
+		for _, at := range addedAt {
+			if at >= time.Duration(first)*time.Millisecond {
+				return nil // not decidable (cannot happen in timeline mode)
+			}
+		}
+		never, last := false, 0
+		for _, ms := range append(append([]int{}, d.init...), d.adds...) {
+			if ms == 0 {
+				never = true
+			} else if ms > last {
+				last = ms
+			}
+		}
+		done := pool.Err() != nil
+		if never {
+			if done {
+				return fmt.Errorf("[key=cancelled-while-member-live] SAFETY: the pool's context is done although a member never ended and Cancel was never called\npool done at model time %v; members (deadline ms, 0 = never ends): created with %v, added at time 0 %v", doneAt, d.init, d.adds)
+			}
+			mc.Outcome("live")
+			return nil
+		}
+		lastAt := time.Duration(last) * time.Millisecond
+		if done && doneAt >= 0 && doneAt < lastAt {
+			return fmt.Errorf("[key=cancelled-while-member-live] SAFETY: the pool's context was done before a member ended and Cancel had not been called\npool done at model time %v, the last member ends at %v; created with %v, added at time 0 %v", doneAt, lastAt, d.init, d.adds)
+		}
+		if !done {
+			return fmt.Errorf("[key=not-cancelled-after-members-ended] LIVENESS: the pool's context is not done at final quiescence\nevery member has reached its deadline (last %v, now %v); parked=%v", lastAt, e.Now, e.Parked())
+		}
+		for _, t := range e.Threads {
+			if strings.HasPrefix(t.Name, "g") && !t.Finished {
+				return fmt.Errorf("[key=watcher-not-ended] the pool's context is done but its watcher goroutine is still alive\n%v", e.Parked())
+			}
+		}
+		mc.Outcome(fmt.Sprint("done@", doneAt))
+		return nil
+	}
+	return &mc.Exec{Body: body, Check: check}
+}
+
+// ---- a member that is itself a live, non-empty Pool ----
+
+type nestScen struct {
+	ctor   byte     // 'n' outer = NewPool(inner); 'a' outer = NewPool(c), outer.Add(inner)
+	inner  int      // contexts inner is created with (a, or a and b)
+	t1, t2 []string // ops of two threads: addB (inner.Add(b)), endA, endB, endC, cancelInner, size (outer.Size())
+}
+
+func (n nestScen) name() string {
+	return fmt.Sprintf("nested-pool ctor=%c inner-members=%d T1=%s T2=%s", n.ctor, n.inner, strings.Join(n.t1, ","), strings.Join(n.t2, ","))
+}
+
+func mkNestedExec(n nestScen) *mc.Exec {
+	var (
+		inner, outer         *kitctx.Pool
+		ended                = map[string]bool{}
+		hasB                 = n.inner == 2
+		innerCancelled       bool
+		sizes                []int
+		early                string
+		finished             int
+		cancelA, cancelB, cC context.CancelFunc
+	)
+	body := func() {
+		bg := context.Background()
+		a, ca := mc.CtxWithCancel(bg)
+		b, cb := mc.CtxWithCancel(bg)
+		c, cc := mc.CtxWithCancel(bg)
+		cancelA, cancelB, cC = ca, cb, cc
+		if n.inner == 2 {
+			inner = kitctx.NewPool(a, b)
+		} else {
+			inner = kitctx.NewPool(a)
+		}
+		if n.ctor == 'n' {
+			outer = kitctx.NewPool(inner)
+		} else {
+			outer = kitctx.NewPool(c)
+			outer.Add(inner) // c and inner are live: inner is a member
+		}
+		sample := func(after string) {
+			// the outer pool must not be done while the nested pool is live
+			if early == "" && outer.Err() != nil && inner.Err() == nil {
+				early = after
+			}
+		}
+		run := func(ops []string) {
+			for _, op := range ops {
+				switch op {
+				case "addB":
+					inner.Add(b) // a is live: b becomes a member of inner
+					hasB = true
+				case "endA":
+					cancelA()
+					ended["a"] = true
+				case "endB":
+					cancelB()
+					ended["b"] = true
+				case "endC":
+					cC()
+					ended["c"] = true
+				case "cancelInner":
+					innerCancelled = true
+					inner.Cancel()
+				case "size":
+					sizes = append(sizes, outer.Size())
+				}
+				sample(op)
+			}
+			finished++
+		}
+		mc.GoNamed("t1", func() { run(n.t1) })
+		mc.GoNamed("t2", func() { run(n.t2) })
+	}
+	check := func(e *mc.End) error {
+		if finished != 2 {
+			return fmt.Errorf("[key=deadlock] a pool operation never returned\nparked=%v", e.Parked())
+		}
+		innerDone, outerDone := inner.Err() != nil, outer.Err() != nil
+		innerShould := innerCancelled || (ended["a"] && (!hasB || ended["b"]))
+		if innerDone != innerShould {
+			return nil // the nested pool itself is judged by the other scenarios
+		}
+		if early != "" || (outerDone && !innerDone) {
+			return fmt.Errorf("[key=cancelled-while-member-live] SAFETY: the pool's context is done although a member never ended and Cancel was never called\nthe member is a nested pool that is still live (its own members: a ended=%v, b member=%v ended=%v); first seen after %q", ended["a"], hasB, ended["b"], early)
+		}
+		membersEnded := innerDone && (n.ctor == 'n' || ended["c"])
+		if outerDone && !membersEnded {
+			return fmt.Errorf("[key=cancelled-while-member-live] SAFETY: the pool's context is done although a member never ended and Cancel was never called\nmember c is live")
+		}
+		if membersEnded && !outerDone {
+			return fmt.Errorf("[key=not-cancelled-after-members-ended] LIVENESS: the pool's context is not done at final quiescence\nthe nested pool has ended (cancelled=%v) and so has every other member; parked=%v", innerCancelled, e.Parked())
+		}
+		want := 1
+		if n.ctor == 'a' {
+			want = 2
+		}
+		for _, v := range sizes {
+			if v != want {
+				return fmt.Errorf("[key=Size-wrong] SIZE: Size() does not report the members being tracked\nSize() of the outer pool = %d, it has %d member(s) (a nested pool is one member)", v, want)
+			}
+		}
+		mc.Outcome(fmt.Sprint(innerDone, outerDone, sizes))
+		return nil
+	}
+	return &mc.Exec{Body: body, Check: check}
+}
+
+func extraScenarios() []hx.Scenario {
+	var out []hx.Scenario
+	for _, d := range []dlScen{
+		{[]int{5, 10}, []int{0}}, {[]int{5, 10}, []int{20}}, {[]int{5, 10}, []int{7}}, {[]int{5}, []int{0}}, {[]int{5}, []int{20, 0}},
+		{[]int{5, 0}, []int{20}}, {[]int{5, 10}, nil}, {[]int{10, 5}, []int{20}}, {[]int{5, 10, 15}, []int{30}}, {[]int{0, 5}, nil}, {[]int{5, 10}, []int{20, 30}},
+	} {
+		d := d
+		out = append(out, hx.Scenario{
+			Name: d.name(), Class: "Pool",
+			Opts: mc.Options{Bound: 2, MinBound: 2, AutoClock: true, ClockLast: true, Horizon: time.Second, MaxSteps: 2000},
+			Mk:   func() *mc.Exec { return mkDeadlineExec(d) },
+		})
+	}
+	for _, n := range []nestScen{
+		{'n', 1, []string{"addB", "endA"}, nil},
+		{'n', 1, []string{"addB", "endA", "endB"}, []string{"size"}},
+		{'n', 1, []string{"cancelInner"}, []string{"size"}},
+		{'n', 1, []string{"addB"}, []string{"endA"}},
+		{'n', 2, []string{"size", "endA", "size", "endB"}, nil},
+		{'n', 2, []string{"endA"}, []string{"cancelInner"}},
+		{'a', 1, []string{"addB", "endA"}, []string{"endC"}},
+		{'a', 1, []string{"cancelInner"}, []string{"endC"}},
+		{'a', 1, []string{"addB", "endA", "endB"}, []string{"size"}},
+		{'a', 2, []string{"size", "endA"}, []string{"endC", "endB"}},
+	} {
+		n := n
+		out = append(out, hx.Scenario{
+			Name: n.name(), Class: "Pool",
+			Opts: mc.Options{Bound: 2, MinBound: 2, MaxSteps: 2000},
+			Mk:   func() *mc.Exec { return mkNestedExec(n) },
+		})
+	}
+	return out
+}
+
+func TestMC(t *testing.T) { hx.Run(t, append(extraScenarios(), scenarios()...)) }
